@@ -4,6 +4,7 @@
 -/
 import Sbdf.Lemmas.Prim
 import Sbdf.Object
+import Sbdf.Lemmas.NoUB
 namespace Sbdf.C16
 
 /-- Every 32-bit integer (in particular every length 0 ≤ n < 2^31) written in the 7-bit-group
@@ -65,30 +66,20 @@ theorem bytes7_groups32 (v : Int) (i : Nat) (hi : i < (bytes7 v).length) :
 
 /-- the reader never performs an out-of-range shift, on any input -/
 theorem read7Aux_no_ub (f shl result : Nat) (hs : shl + 7 * f ≤ 35) (d : Array UInt8) (pos : Nat)
-    (w : String) : read7Aux f shl result d pos ≠ .error (.ub w) := by
-  induction f generalizing shl result pos with
-  | zero => simp [read7Aux, P.fail]
-  | succ f ih =>
-    have hshl : shl < 32 := by omega
-    simp only [read7Aux, P.bind, hshl, if_true]
-    cases hr : readN 1 d pos with
-    | error e =>
-      simp only
-      unfold readN at hr
-      split at hr
-      · simp at hr
-      · split at hr <;> simp at hr; subst hr; simp
-    | ok r =>
-      obtain ⟨b, p1⟩ := r
-      simp only
-      split
-      · split
-        · simp [P.fail]
-        · exact ih (shl + 7) _ (by omega) p1
-      · simp [P.pure]
+    (w : String) : read7Aux f shl result d pos ≠ .error (.ub w) :=
+  (nub_read7Aux f shl result hs).out d pos w
 
 theorem read7_no_ub (d : Array UInt8) (pos : Nat) (w : String) : read7 d pos ≠ .error (.ub w) :=
   read7Aux_no_ub 5 0 0 (by omega) d pos w
+
+/-- a fifth group carrying bits beyond the 32nd is refused instead of being shifted out of range
+    (repair F23) -/
+theorem read7_fifth_group_out_of_range (b1 b2 b3 b4 b5 : UInt8) (rest : Bytes)
+    (h1 : b1.toNat ≥ 128) (h2 : b2.toNat ≥ 128) (h3 : b3.toNat ≥ 128) (h4 : b4.toNat ≥ 128)
+    (h5 : b5.toNat % 128 ≥ 16) :
+    read7 (b1 :: b2 :: b3 :: b4 :: b5 :: rest).toArray 0 = .error (.st .invalidSize) := by
+  have hb : ∀ (x : UInt8), leNat [x] = x.toNat := by intro x; simp [leNat]
+  simp [read7, read7Aux, P.bind, readN, hb, h1, h2, h3, h4, h5, P.fail, List.extract_eq_take_drop]
 
 /-- an over-long group sequence (continuation bit on the fifth byte) is refused -/
 theorem read7_overlong (b1 b2 b3 b4 b5 : UInt8) (rest : Bytes)
